@@ -175,6 +175,10 @@ func (x *Exec) callFunc(call *ast.CallExpr, obj *types.Func, recv *Val, args []*
 		x.pull2(call, args, st, fr, k)
 		return
 	}
+	if key == "fs.WalkDir" && !x.pure {
+		x.walkDir(call, args, st, fr, k)
+		return
+	}
 	c := x.W.CS.ByKey[key]
 	fi := x.W.ByObj[obj.Origin()]
 	if inst := x.callInstance(call, obj, recv, fr); inst != "" {
